@@ -309,6 +309,18 @@ def serde_corr(env: Env, out: Outcome, n: int, stability_sig: str | None = None)
                     out.violations.append(Violation("C12/waiting_invocation_budget_changed",
                                                     f"the attempt record kept in a waiter changed across the round trip: {[x for x in b4 if x not in af][:2]} -> {[x for x in af if x not in b4][:2]}",
                                                     {"state": ops[-3][:6000], "cfg": ops[-4][:2000]}))
+            if stability_sig is not None:
+                # ... and what the steps had buffered through ctx.collect_events is all still there, whatever the event types
+                # (a step may collect events it built itself, of types it does not accept)
+                b4c = {(nm, b): [enc.ev(e) for e in evs] for nm, ws in st.workers.items() for b, evs in ws.collected_events.items() if evs}
+                afc = {(nm, b): [enc.ev(e) for e in evs] for nm, ws in cur.workers.items() for b, evs in ws.collected_events.items() if evs}
+                if b4c != afc:
+                    bad = sorted(k for k in set(b4c) | set(afc) if b4c.get(k) != afc.get(k))[:2]
+                    acc = {nm: sorted(t.__name__ for t in st.config.steps[nm].accepted_events) for nm, _b in bad if nm in st.config.steps}
+                    out.violations.append(Violation("C12/collect_buffer_changed_by_round_trip",
+                                                    f"collect_events buffers changed across to_serialized -> from_serialized: "
+                                                    f"{[(k, b4c.get(k), afc.get(k)) for k in bad]}; accepted event types of the step(s): {acc}",
+                                                    {"state": ops[-3][:6000], "cfg": ops[-4][:2000]}))
             if stability_sig is not None and rts[0] != rts[1]:
                 # the property's own clause, on the implementation alone: one round trip must be a fixed point
                 i = 0
